@@ -934,7 +934,8 @@ func init() {
 	register(&CheckDef{
 		Prop: "C03", Level: "exploration",
 		Gen: func(r *RNG, idx int, tier string) *Scenario {
-			sc := genBatch(r, false, 24)
+			// a third of the overlap windows run batches with failing lines (error paths of several runs in true parallel)
+			sc := genBatch(r, isRaceIdx(idx) && idx%3 == 0, 24)
 			if sc.Params == nil {
 				sc.Params = map[string]string{}
 			}
@@ -946,6 +947,12 @@ func init() {
 				// a window early (all runs at run.start) and some later ones
 				sc.Sched.Overlap = []int{r.Intn(3), r.Range(3, 40), r.Range(40, 400)}
 				sc.Sched.OverlapK = r.PickI([]int{0, 2, 3, 8})
+				if idx%3 == 0 {
+					// failing lines: as many runs as possible leave run.start together, so that their error paths overlap
+					sc.Sched.Concurrency = min(16, len(sc.Lines))
+					sc.Sched.Overlap = []int{0, 1, r.Range(3, 40)}
+					sc.Sched.OverlapK = 0
+				}
 			default:
 				sc.Params["mode"] = []string{"serial", "permute", "diskfault", "stale", "crash", "permute", "realbin"}[idx%7]
 				if sc.Params["mode"] == "realbin" && r.Bool(0.5) {
